@@ -66,7 +66,8 @@ impl AppendTextComment {
                     {
                         // a line comment ends at the first line break (a carriage return is
                         // one for Lua 5.1) and `--[[` or `--[=[` would open a long comment
-                        let mut equal_count = 0;
+                        // Lua 5.1 refuses a `[[` inside a long comment without equal signs
+                        let mut equal_count = if content.contains("[[") { 1 } else { 0 };
 
                         let close_comment = loop {
                             let close_comment = format!("]{}]", "=".repeat(equal_count));
